@@ -77,11 +77,18 @@ SignDecision(r) == CASE r = "LT" -> "reject" [] r = "UNDEF" -> "any" [] OTHER ->
 \* SOA serial b is refused (InvalidSerialRange) unless b is newer than a
 DiffDecision(r) == CASE r = "LT" -> "accept" [] r = "UNDEF" -> "any" [] OTHER -> "reject"
 
+\* net::server::middleware::xfr, RFC 1995 section 2: an IXFR request from a
+\* client at serial a to a server whose zone is at serial b (diffs available)
+\* is answered with a single SOA if the client has the same or a newer
+\* version, otherwise with a transfer (diff sequence, or the whole zone)
+IxfrDecision(r) == CASE r = "LT" -> "transfer" [] r = "UNDEF" -> "any" [] OTHER -> "single"
+
 EmitCmp == PrintT("CASE " \o ToJson(
    [in  |-> [kind |-> "cmp", k |-> BITS, a |-> a, b |-> b],
     exp |-> LET r == Cmp(a, b) IN
             [serial |-> r, ops |-> OpsOf(r), rev |-> Flip(r), timestamp |-> r,
              soa |-> r, rrsig |-> r, sign |-> SignDecision(r), diff |-> DiffDecision(r),
+             ixfr |-> IxfrDecision(r),
              newserial |-> r, ref |-> r, refk |-> r]]))
 
 EmitAdd == PrintT("CASE " \o ToJson(
